@@ -74,6 +74,7 @@ use std::sync::atomic::{AtomicU64, Ordering};
 //@item LENGTH_MASK
 //@item FlushedOffset
 //@item FlushedOffset::new
+//@item FlushedOffset::set
 //@item FlushedOffset::load
 //@item calculate_crc32c
 //@item PAGE_SIZE
@@ -135,4 +136,29 @@ mod verif {
     #[kani::proof] #[kani::unwind(26)] fn rd_gate_random_fallback() { reader_gate::<4>(ReadHint::Random); }
     #[kani::proof] #[kani::unwind(26)] fn rd_gate_random_allocated() { reader_gate::<6>(ReadHint::Random); }
     #[kani::proof] #[kani::unwind(26)] fn rd_gate_sequential() { reader_gate::<4>(ReadHint::Sequential); }
+
+    /// A long-lived reader and a truncation (C18: "no read returns bytes beyond the flushed offset", "for any interleaving of
+    /// appends, syncs, truncations and reads"): the reader reads a record, the writer then lowers the shared flushed offset below
+    /// that record (Writer::set_len), and the SAME reader is asked for it again: it must report OutOfBounds, whatever it cached.
+    fn reader_respects_lowered_flushed<const PL: usize>(hint: ReadHint) {
+        let img: [u8; DISK_SIZE] = kani::any();
+        unsafe { DISK = img; }
+        let lb = (PL as u32).to_le_bytes();
+        unsafe { DISK[8] = lb[0]; DISK[9] = lb[1]; DISK[10] = lb[2]; DISK[11] = lb[3]; }
+        let fo = FlushedOffset::new(DISK_SIZE as u64);
+        let mut r = Reader::<1>::open("seg", Some(fo.clone())).unwrap();
+        let first_ok = r.read_record(START, hint).is_ok();
+        let lowered: u64 = kani::any();
+        kani::assume(lowered >= START && lowered < START + (RECORD_HEAD_SIZE + PL) as u64);
+        fo.set(lowered);
+        kani::cover!(first_ok, "reachable: the record was served before the truncation");
+        match r.read_record(START, hint) {
+            Err(ReadError::OutOfBounds { .. }) => {}
+            Ok(_) => { assert!(false, "a record that ends beyond the (lowered) flushed offset was returned"); }
+            Err(_) => { assert!(false, "a request beyond the flushed offset reports OutOfBounds"); }
+        }
+    }
+    #[kani::proof] #[kani::unwind(26)] fn rd_respects_lowered_flushed_random() { reader_respects_lowered_flushed::<2>(ReadHint::Random); }
+    // (the sequential variant - two reads through the read-ahead cache - runs CBMC out of memory; the bounds checks it would
+    // exercise are the same two comparisons at the top of read_record_sequential, and the cache itself is proved in units/U03)
 }
